@@ -1,6 +1,7 @@
 import LeptosModel.Proofs.HydrateThen
 import LeptosModel.Proofs.HydrateState
 import LeptosModel.Proofs.ViewAttrs
+import LeptosModel.Proofs.ViewSer2
 /-! Helper lemmas for C05, part 13: assembly of `C05_then_like_csr` — the hydrated world with its
 separators erased is a mounted representation in the sense of C03; rebuilding commutes with the
 erasure; C03's `rebuild_spec` gives the result on the erased side and on the client-built side. -/
@@ -42,15 +43,41 @@ theorem staticL_allEl : ∀ (vs : List View), staticL vs = true → AllElList St
     simp only [AllElList]; exact ⟨staticV_allEl v h.1, staticL_allEl vs h.2⟩
 end
 
-/-- a mounted representation without siblings serialises to `render v` with the fuel of `serializeKids` -/
-theorem stateOk_ser {d : Dom} {v : View} {st : State} {p : Id} (hw : wfH v = true)
-    (h : StateOk Eq d v st p [] []) (m : Nat) (hm : (owned st).length + 1 ≤ m) :
-    serListN m d (d.kidsOf p) = some (render v) := by
+variable {R : List (String × String) → List (String × String) → Prop} {Good : List AttrVal → Prop}
+
+mutual
+theorem sim_eq : ∀ (a b : Dom.Tree), Tree.sim Eq a b → a = b
+  | .elem _ _ k1, .elem _ _ k2, h => by
+    simp only [Tree.sim] at h
+    obtain ⟨h1, h2, h3⟩ := h
+    rw [h1, h2, simList_eq k1 k2 h3]
+  | .text _, .text _, h => by simp only [Tree.sim] at h; rw [h]
+  | .comment _, .comment _, h => by simp only [Tree.sim] at h; rw [h]
+  | .elem _ _ _, .text _, h => by simp [Tree.sim] at h
+  | .elem _ _ _, .comment _, h => by simp [Tree.sim] at h
+  | .text _, .elem _ _ _, h => by simp [Tree.sim] at h
+  | .text _, .comment _, h => by simp [Tree.sim] at h
+  | .comment _, .elem _ _ _, h => by simp [Tree.sim] at h
+  | .comment _, .text _, h => by simp [Tree.sim] at h
+theorem simList_eq : ∀ (a b : List Dom.Tree), Tree.simList Eq a b → a = b
+  | [], [], _ => rfl
+  | [], _ :: _, h => by simp [Tree.simList] at h
+  | _ :: _, [], h => by simp [Tree.simList] at h
+  | a :: as, b :: bs, h => by
+    simp only [Tree.simList] at h
+    rw [sim_eq a b h.1, simList_eq as bs h.2]
+end
+
+/-- a mounted representation without siblings serialises, with the fuel of `serializeKids`, to `render v` up to
+the attribute relation -/
+theorem stateOk_serSim (F : Frag R Good) {d : Dom} {v : View} {st : State} {p : Id} (hw : wfH v = true)
+    (h : StateOk R d v st p [] []) (m : Nat) (hm : (owned st).length + 1 ≤ m) :
+    ∃ ts, serListN m d (d.kidsOf p) = some ts ∧ Tree.simList R ts (render v) := by
   have hs : SiblingsOk d (owned st) p [] [] 0 [] [] :=
     ⟨by simp [serListN, allSome], by simp [serListN, allSome], by simp⟩
   have hd := depth_le_owned v st (some p) hw h.rep
-  have := h.ser hs m (by omega)
-  simpa using this
+  obtain ⟨ts, h1, h2⟩ := h.serSim F.refl hs m (by omega)
+  exact ⟨ts, h1, by simpa using h2⟩
 
 theorem owned_length_lt {d : Dom} {st : State} {p : Id} {R : List Id} (h : Inv d R (owned st) p [] []) :
     (owned st).length + 1 ≤ d.next := by
@@ -63,29 +90,34 @@ theorem owned_length_lt {d : Dom} {st : State} {p : Id} {R : List Id} (h : Inv d
     · exact h.lt x hx
   simpa using nodup_bounded d.next (p :: owned st) hnd hb
 
-/-- one `rebuild` of a mounted representation (C03 `rebuild_spec`, static attributes) -/
-theorem rebuild_stateOk (a b : View) (ty : Ty) (st : State) (d : Dom) (p : Id)
-    (hta : HasTy a ty) (htb : HasTy b ty) (ha : AllEl StaticAttrs a) (hb : AllEl StaticAttrs b)
-    (hok : StateOk Eq d a st p [] []) :
-    StateOk Eq (rebuild false b st d).1 b (rebuild false b st d).2 p [] [] := by
-  obtain ⟨h1, h2⟩ := rebuild_spec StaticAttrs AttrsFresh_static
-    (fun as bs x y z => AttrsRebuild_static as bs x y z) b a ty st false d p [] []
+/-- one `rebuild` of a mounted representation (C03 `rebuild_spec`) -/
+theorem rebuild_stateOk (F : Frag R Good) (a b : View) (ty : Ty) (st : State) (d : Dom) (p : Id)
+    (hta : HasTy a ty) (htb : HasTy b ty) (ha : AllEl Good a) (hb : AllEl Good b)
+    (hok : StateOk R d a st p [] []) :
+    StateOk R (rebuild false b st d).1 b (rebuild false b st d).2 p [] [] := by
+  obtain ⟨h1, h2⟩ := rebuild_spec (R := R) Good F.fresh F.rebuild b a ty st false d p [] []
     hta.1 hta.2 htb.2 ha hb hok.rep hok.inv
   exact ⟨h1, h2.inv⟩
 
-/-- the client-built twin: built, mounted and rebuilt it shows exactly `render b` -/
-theorem csr_side (a b : View) (ty : Ty) (hta : HasTy a ty) (htb : HasTy b ty) (ha : AllEl StaticAttrs a)
-    (hb : AllEl StaticAttrs b) (hwb : wfH b = true) : runCsr a b = some (render b) := by
+/-- the client-built twin: built, mounted and rebuilt it shows `render b`, up to the attribute relation -/
+theorem csr_side_gen (F : Frag R Good) (a b : View) (ty : Ty) (hta : HasTy a ty) (htb : HasTy b ty) (ha : AllEl Good a)
+    (hb : AllEl Good b) (hwb : wfH b = true) : ∃ k2, runCsr a b = some k2 ∧ Tree.simList R k2 (render b) := by
   have hroot : (({} : Dom).createElement "div").1.get? 0 = some { kind := .elem "div", data := "" } := by
     show (({} : Dom).create _ _).1.get? 0 = _
     rw [Dom.get?_create]; rfl
   have hnext : (({} : Dom).createElement "div").1.next = 1 := rfl
-  obtain ⟨hok, _, _, _⟩ := build_mount_spec (R := Eq) a (({} : Dom).createElement "div").1 0 [] []
-    { kind := .elem "div", data := "" } (allEl_fresh ha) hroot rfl rfl (by rw [hnext]; exact Nat.zero_lt_one)
+  obtain ⟨hok, _, _, _⟩ := build_mount_spec (R := R) a (({} : Dom).createElement "div").1 0 [] []
+    { kind := .elem "div", data := "" } (allEl_fresh F ha) hroot rfl rfl (by rw [hnext]; exact Nat.zero_lt_one)
     (by simp) (by simp [Anchor])
-  have hok2 := rebuild_stateOk a b ty _ _ 0 hta htb ha hb hok
-  have hser := stateOk_ser hwb hok2 _ (Nat.le_succ_of_le (owned_length_lt hok2.inv))
-  simpa [runCsr, Dom.createElement, serializeKids] using hser
+  have hok2 := rebuild_stateOk F a b ty _ _ 0 hta htb ha hb hok
+  obtain ⟨k2, hser, hsim⟩ := stateOk_serSim F hwb hok2 _ (Nat.le_succ_of_le (owned_length_lt hok2.inv))
+  exact ⟨k2, by simpa [runCsr, Dom.createElement, serializeKids] using hser, hsim⟩
+
+/-- the client-built twin, static string attributes: exactly `render b` -/
+theorem csr_side (a b : View) (ty : Ty) (hta : HasTy a ty) (htb : HasTy b ty) (ha : AllEl StaticAttrs a)
+    (hb : AllEl StaticAttrs b) (hwb : wfH b = true) : runCsr a b = some (render b) := by
+  obtain ⟨k2, h1, h2⟩ := csr_side_gen fragStatic a b ty hta htb ha hb hwb
+  rw [h1, simList_eq _ _ h2]
 
 /-! ### the hydrated side -/
 
@@ -162,10 +194,11 @@ theorem pairwise_lt_nodup : ∀ (l : List Nat), l.Pairwise (· < ·) → l.Nodup
 
 /-- **the hydrated side**: SSR of `a`, parsed, loaded, hydrated with `a`, rebuilt with `b` — the children of
 the root serialise (with the fuel of `serializeKids`) to trees that `stripL` cannot tell from `render b` -/
-theorem hydrated_side (a b : View) (ty : Ty) (hta : HasTy a ty) (htb : HasTy b ty)
-    (hwa : wfV [[]] a = true) (hwb : wfH b = true) (ha : AllEl StaticAttrs a) (hb : AllEl StaticAttrs b)
+theorem hydrated_side_gen (F : Frag R Good) (a b : View) (ty : Ty) (hta : HasTy a ty) (htb : HasTy b ty)
+    (hwa : wfV [[]] a = true) (hwb : wfH b = true) (ha : AllEl Good a) (hb : AllEl Good b)
     (hfa : fullV a = true) :
-    ∃ k1, runHydrated (domOf a) a b = ⟨.ok (), 0, some k1⟩ ∧ stripL k1 = stripL (render b) := by
+    ∃ k1 t1, runHydrated (domOf a) a b = ⟨.ok (), 0, some k1⟩ ∧ stripL k1 = stripL t1 ∧
+      Tree.simList R t1 (render b) := by
   obtain ⟨_, ⟨r0, hget0, hel0, hkids0⟩, hreal, _, hsorted, hrange, hnext⟩ :=
     loadRoot_facts (domOf a) (nodupAttrs_dom a _ .firstChild hwa)
   obtain ⟨c, hwalk, hbound⟩ := hydrate_loaded a hwa
@@ -195,8 +228,9 @@ theorem hydrated_side (a b : View) (ty : Ty) (hta : HasTy a ty) (htb : HasTy b t
     refine ⟨eraseRec S r1, by rw [get?_erase_keep _ hx, h1]; rfl, k1, p1, a1, by simp [eraseRec, c1], e1⟩
   have hloc : Loc S (emptyIds st) (owned st) (emptyIds st) S :=
     ⟨fun _ h => h, hdisj, fun _ _ h => h, fun _ h => h, (List.nodup_append.mp hnd).1⟩
-  obtain ⟨hrep, c2, hsplit2, _, hroots⟩ := hyd_rep hE a [[]] 0 .firstChild consumed [] hwa ha hfa
+  obtain ⟨hrep0, c2, hsplit2, _, hroots⟩ := hyd_rep hE a [[]] 0 .firstChild consumed [] hwa (AllEl.mono F.plain a ha) hfa
     (by simpa [domOf] using hreal) (by rw [hst, hS]; exact hloc)
+  have hrep := Rep.mono (R := Eq) (R' := R) (fun x y e => e ▸ F.refl x) a _ _ hrep0
   rw [hst] at hrep hroots
   have hc2 : c2 = consumed := by
     have : (adopt a .firstChild consumed).2 = [] := hrest0
@@ -208,16 +242,16 @@ theorem hydrated_side (a b : View) (ty : Ty) (hta : HasTy a ty) (htb : HasTy b t
     Inv.ofState ⟨r0', hg0', by rw [hk0']; exact hel0, by rw [hkids0', hkids0, hroots]; simp⟩
       (List.nodup_append.mp hnd).1 h0O (by simp)
       (fun x hx => by rw [hnextE]; exact (hrng x (by simp [hx])).2) (by rw [hnextE]; omega_nat) (by simp)
-  have hok : StateOk Eq (erase (settle st d0) S) a st 0 [] [] := ⟨hrep, hinv⟩
+  have hok : StateOk R (erase (settle st d0) S) a st 0 [] [] := ⟨hrep, hinv⟩
   -- rebuild on the erased side (C03), and its commutation with the erasure
-  have hok2 := rebuild_stateOk a b ty st _ 0 hta htb ha hb hok
+  have hok2 := rebuild_stateOk F a b ty st _ 0 hta htb ha hb hok
   have hside : SideZ (settle st d0) S :=
     ⟨fun z hz => by rw [settle_next]; exact (hrng z (by simp [hz])).2,
       fun z hz => by
         rw [isElement_kindOf, (settle_sameShape st d0).kind z, hsepk z hz]; rfl⟩
   have hown : OwnOk S (settle st d0) st :=
     fun x hx => ⟨hdisj x hx, by rw [settle_next]; exact (hrng x (by simp [hx])).2⟩
-  have hstep := erase_rebuild S b false st (settle st d0) hside hown hb
+  have hstep := erase_rebuild F S b false st (settle st d0) hside hown hb
   have hgrow := hstep.grow
   rw [hstep.comm] at hok2
   simp only [] at hok2
@@ -225,18 +259,26 @@ theorem hydrated_side (a b : View) (ty : Ty) (hta : HasTy a ty) (htb : HasTy b t
   generalize hst1 : (rebuild false b st (settle st d0)).2 = st1 at *
   have hlen := owned_length_lt hok2.inv
   simp only [erase_next] at hlen
-  have hser := stateOk_ser hwb hok2 d1.next hlen
+  obtain ⟨t1, hser, hsim⟩ := stateOk_serSim F hwb hok2 d1.next hlen
   rw [kidsOf_erase d1 h0S] at hser
   have hZ : ∀ z ∈ S, d1.kindOf z = some .comment := by
     intro z hz
     rw [hgrow.kind z (hside.lt z hz), (settle_sameShape st d0).kind z]
     exact hsepk z hz
-  obtain ⟨k1, hk1, hstrip⟩ := serList_erase d1 S hZ d1.next (d1.kidsOf 0) (render b) hser
-  refine ⟨k1, ?_, hstrip⟩
+  obtain ⟨k1, hk1, hstrip⟩ := serList_erase d1 S hZ d1.next (d1.kidsOf 0) t1 hser
+  refine ⟨k1, t1, ?_, hstrip, hsim⟩
   have hwalk' : hydrateFrom d0 0 a = .ok ⟨st, c, 0⟩ := hwalk
   have hload : loadRoot (domOf a) = (d0, 0, consumed) := by
     have e : loadRoot (domOf a) = ((loadRoot (domOf a)).1, 0, (loadRoot (domOf a)).2.2) := rfl
     rw [e, hd0, hf]
   simp only [runHydrated, hload, hydrateDom, hwalk', hd1, serializeKids, hk1]
+
+/-- the hydrated side, static string attributes: `stripL` cannot tell the result from `render b` -/
+theorem hydrated_side (a b : View) (ty : Ty) (hta : HasTy a ty) (htb : HasTy b ty)
+    (hwa : wfV [[]] a = true) (hwb : wfH b = true) (ha : AllEl StaticAttrs a) (hb : AllEl StaticAttrs b)
+    (hfa : fullV a = true) :
+    ∃ k1, runHydrated (domOf a) a b = ⟨.ok (), 0, some k1⟩ ∧ stripL k1 = stripL (render b) := by
+  obtain ⟨k1, t1, h1, h2, h3⟩ := hydrated_side_gen fragStatic a b ty hta htb hwa hwb ha hb hfa
+  exact ⟨k1, h1, by rw [h2, simList_eq _ _ h3]⟩
 
 end Leptos.Hydrate
